@@ -16,7 +16,10 @@ def _table(text, ncol):
             continue
         rows.append([float(p) for p in parts[:ncol]])
     a = np.array(rows, dtype=float)
-    return a
+    # the table defines a piecewise-linear function of wavelength; a few catalogue files list rows out of order
+    order = sorted(range(len(a)), key=lambda i: a[i, 0])
+    _table.last_unsorted = order != list(range(len(a)))
+    return a[order]
 
 
 def load(path):
@@ -32,11 +35,14 @@ def load(path):
         elif t == 'tabulated n':
             a = _table(blk['data'], 2)
             e['n_table'] = (a[:, 0], a[:, 1])
+            e['unsorted'] = e.get('unsorted', False) or _table.last_unsorted
         elif t == 'tabulated k':
             a = _table(blk['data'], 2)
             e['k_table'] = (a[:, 0], a[:, 1])
+            e['unsorted'] = e.get('unsorted', False) or _table.last_unsorted
         elif t == 'tabulated nk':
             a = _table(blk['data'], 3)
+            e['unsorted'] = e.get('unsorted', False) or _table.last_unsorted
             e['n_table'] = (a[:, 0], a[:, 1])
             e['k_table'] = (a[:, 0], a[:, 2])
     return e
